@@ -4,19 +4,19 @@ import json
 import os
 HERE = os.path.dirname(os.path.abspath(__file__))
 
-CHECKS = {
-    'C10': dict(
-        text='Theorems (Coq, all op sequences, unbounded): the LaxBoundedSemaphore methods translated from pool.py on every run equal the model; 0 <= value <= size + shrinks-in-progress for every sequence of acquire/release/grow/shrink/clear; acquire enabled iff value > 0; release is lax. Correspondence on random op sequences against the real class.',
-        note='Trusted: Coq kernel, translate/pykernel.py, Lib/PyVal.v (Python int/None semantics), stdlib threading.Semaphore modelled (blocking acquire = Blocked), `with cond:` sections atomic. Pool-level slot conservation is partial (see DESIGN.md 5.10).',
-        technique='Coq proof over translator-regenerated kernel + differential correspondence',
-        ref='5.10'),
-    'C11': dict(
-        text='Theorems (Coq, all histories): restart_state.step as translated from common.py on every run equals the model; 0 <= R <= max_restarts; inside one window exactly the remaining budget is admitted and the next step raises; a step after the window expired or after an ack starts afresh. Correspondence of the real restart_state on random histories.',
-        note='Trusted: Coq kernel, translator, PyVal semantics; integer clock (float rounding not modelled); monotonic() != 0.',
-        technique='Coq proof over translator-regenerated kernel + differential correspondence',
-        ref='5.11'),
-}
+import importlib
+import sys
+sys.path.insert(0, HERE)
+sys.dont_write_bytecode = True
 
+CHECKS = {}
+for f in sorted(os.listdir(os.path.join(HERE, 'props'))):
+    if f.startswith('C') and f.endswith('.py'):
+        mod = importlib.import_module('props.' + f[:-3])
+        if getattr(mod, 'MANIFEST', None):
+            CHECKS[f[:-3]] = mod.MANIFEST
+
+# properties deliberately not claimed, with the reason (see DESIGN.md)
 NOT_APPLICABLE = {}
 
 
